@@ -62,7 +62,11 @@ func (x *Xlat) ghostKey(fr *Frame, name string) string {
 	return fmt.Sprintf("g$%d$%s", fr.id, name)
 }
 
-func (x *Xlat) havocLoop(st *State, fr *Frame, out *Outcomes, nodes ...ast.Node) {
+func (x *Xlat) havocLoop(st *State, fr *Frame, out *Outcomes, nodes ...ast.Node) (keys []string) {
+	if x.lock != nil {
+		x.lockHavocOK = true
+		defer func() { x.lockHavocOK = false }()
+	}
 	for _, n := range nodes {
 		if n == nil {
 			continue
@@ -70,11 +74,14 @@ func (x *Xlat) havocLoop(st *State, fr *Frame, out *Outcomes, nodes ...ast.Node)
 		ef := x.eff.OfNode(fr.pkg, fr.fi, n)
 		for _, k := range sortedKeys(ef.regions) {
 			x.havocRegion(st, k)
+			keys = append(keys, k)
 		}
 		for _, v := range sortedVars(ef.assigned) {
 			if k, _, ok := fr.lookupVar(v); ok {
 				if _, ok := st.env[k]; ok {
 					st.env[k] = x.freshTyped(st, k, v.Type())
+					x.lockCouple(st.env[k])
+					keys = append(keys, k)
 				}
 			}
 		}
@@ -87,6 +94,7 @@ func (x *Xlat) havocLoop(st *State, fr *Frame, out *Outcomes, nodes ...ast.Node)
 		// the literal's effects, including assignments to the variables it captured, happen in this loop too
 		x.havocBoundClosureCalls(st, fr, n, map[*ast.FuncLit]bool{})
 	}
+	return keys
 }
 
 func (x *Xlat) havocBoundClosureCalls(st *State, fr *Frame, n ast.Node, seen map[*ast.FuncLit]bool) {
@@ -190,11 +198,12 @@ func (x *Xlat) execFor(st *State, fr *Frame, s *ast.ForStmt, label string) *Outc
 	fr.loopEntry = append(fr.loopEntry, st.clone())
 	defer func() { fr.loopEntry = fr.loopEntry[:len(fr.loopEntry)-1] }()
 	x.loopInvs(st, fr, lc, s, "entry", false)
-	x.havocLoop(st, fr, out, s.Body, s.Post, condNode(s.Cond))
+	hkeys := x.havocLoop(st, fr, out, s.Body, s.Post, condNode(s.Cond))
 	x.loopInvs(st, fr, lc, s, "", true)
 	var c *Term = TTrue
 	if s.Cond != nil {
 		c = x.evalCond(st, fr, out, s.Cond)
+		x.lockBranch(st, c, s.Cond.Pos(), "for "+x.src(s.Cond))
 	}
 	exitSt := st.clone()
 	exitSt.guard(Not(c))
@@ -213,6 +222,7 @@ func (x *Xlat) execFor(st *State, fr *Frame, s *ast.ForStmt, label string) *Outc
 		}
 		if end != nil {
 			x.loopInvs(end, fr, lc, s, "preserved", false)
+			x.lockState(end, hkeys, "loop", s.Pos())
 			if m0 != nil {
 				m1 := x.loopMeasure(end, fr, lc, s)
 				x.emit(end, lc.prefix+".decreases", "decreases", And(App(">=", SBool, m0, zeroOf(m0.Sort)), App("<", SBool, m1, m0)), s.Pos(), "loop measure decreases and is bounded below: "+lc.spec.Decr.Text)
@@ -338,7 +348,7 @@ func (x *Xlat) execRange(st *State, fr *Frame, s *ast.RangeStmt, label string) *
 	// entry
 	st.env[gk] = IntLit(0)
 	x.loopInvs(st, fr, lc, s, "entry", false)
-	x.havocLoop(st, fr, out, s.Body)
+	hkeys := x.havocLoop(st, fr, out, s.Body)
 	idx := x.ctx.Fresh("idx", SInt)
 	st.env[gk] = idx
 	st.assume(And(App("<=", SBool, IntLit(0), idx), App("<=", SBool, idx, n)))
@@ -391,6 +401,7 @@ func (x *Xlat) execRange(st *State, fr *Frame, s *ast.RangeStmt, label string) *
 	if end != nil && !end.dead() {
 		end.env[gk] = App("+", SInt, idx, IntLit(1))
 		x.loopInvs(end, fr, lc, s, "preserved", false)
+		x.lockState(end, hkeys, "loop", s.Pos())
 	}
 	exit := x.merge(exitSt, o.brk[""])
 	if label != "" {
@@ -416,7 +427,7 @@ func (x *Xlat) execRangeMap(st *State, fr *Frame, s *ast.RangeStmt, label string
 	// visited set, initially empty
 	st.env[gk] = App("(as const "+setSort+")", setSort, TFalse)
 	x.loopInvs(st, fr, lc, s, "entry", false)
-	x.havocLoop(st, fr, out, s.Body)
+	hkeys := x.havocLoop(st, fr, out, s.Body)
 	seen := x.ctx.Fresh("seen", setSort)
 	st.env[gk] = seen
 	domH := x.get(st, mapDomKey(ks), ArrSort(SRef, ArrSort(ks, SBool)))
@@ -458,6 +469,7 @@ func (x *Xlat) execRangeMap(st *State, fr *Frame, s *ast.RangeStmt, label string
 	if end != nil && !end.dead() {
 		end.env[gk] = Sto(seen, k, TTrue)
 		x.loopInvs(end, fr, lc, s, "preserved", false)
+		x.lockState(end, hkeys, "loop", s.Pos())
 	}
 	exit := x.merge(exitSt, o.brk[""])
 	if label != "" {
@@ -496,7 +508,7 @@ func (x *Xlat) execRangeFunc(st *State, fr *Frame, s *ast.RangeStmt, label strin
 	fr.loopEntry = append(fr.loopEntry, st.clone())
 	defer func() { fr.loopEntry = fr.loopEntry[:len(fr.loopEntry)-1] }()
 	x.loopInvs(st, fr, lc, s, "entry", false)
-	x.havocLoop(st, fr, out, s.Body)
+	hkeys := x.havocLoop(st, fr, out, s.Body)
 	x.loopInvs(st, fr, lc, s, "", true)
 	exitSt := st.clone()
 	// the yielded value: arbitrary value of the element type (over-approximation of the iterator)
@@ -530,6 +542,7 @@ func (x *Xlat) execRangeFunc(st *State, fr *Frame, s *ast.RangeStmt, label strin
 	end := x.merge(o.normal, o.cont[""])
 	if end != nil && !end.dead() {
 		x.loopInvs(end, fr, lc, s, "preserved", false)
+		x.lockState(end, hkeys, "loop", s.Pos())
 	}
 	exit := x.merge(exitSt, o.brk[""])
 	if label != "" {
